@@ -24,5 +24,6 @@ def main(tier):
     pure.run(P, rep, pure.query_roots(P))
     rep.explanation = ("Computer-algebra identity between the closest-point search's cubic coefficients and the Bernstein form evaluated by "
                        "operator(), interval check of the acos clamp, structure of the kd-tree search (near child unconditional, far child "
-                       "pruned on the split-axis difference, same mid in build and search).")
+                       "pruned on the split-axis difference, same mid in build and search), Cartesian<->spherical round trip on every path, "
+                       "great-circle cosine, closed forms of the Point kernels, boundary and winding rules of the polygon test.")
     return rep.finish()
